@@ -1,4 +1,8 @@
 import IbModel.Proofs.ParSeq
+import IbModel.Proofs.PlanOK
+import IbModel.Proofs.VecSplit
+import IbModel.Props.C04
+import IbModel.Props.C05
 import IbModel.Model.Closures
 /-!
 # C01 — sequential and parallel execution return the same result
@@ -45,5 +49,127 @@ theorem C01_legacy_fanin_no_fuel (m : List P → P) (fuel : Nat) (accs : List P)
 /-- the partition count the engine actually uses is between 1 and max(len, 1) -/
 theorem C01_clampParts (n len : Nat) : 1 ≤ clampParts n len ∧ clampParts n len ≤ max len 1 := by
   unfold clampParts; omega
+
+end IB
+
+/-! ## The planned chain, and the chains the builders produce -/
+
+namespace IB
+open Val
+
+/-- nodes a sub-plan (join side) may contain, with the facts the contracts need -/
+inductive SubBuilt : Node Part → Prop
+  /-- a fused or unfused block of partition-homomorphic operators (map, filter, flat_map, key_by,
+      map_values, filter_values always; batch maps with an element-wise chunk function — `Props/C02`) -/
+  | stateless (ops : List (DynOp Part))
+      (h : ∀ op ∈ ops, ∀ ps : List Part, op.apply ps.flatten = (ps.map op.apply).flatten) :
+      SubBuilt (.stateless ops)
+  | gbk : SubBuilt gbkNode
+  | combineValues (c : VCombiner) (R : Val → Val → Prop) (hc : LawfulCombiner c R) :
+      SubBuilt (combineValuesNode c)
+  | combineValuesLifted (c : VCombiner) (R : Val → Val → Prop) (hc : LawfulCombiner c R) :
+      SubBuilt (combineValuesLiftedNode c)
+  | combineGlobal (c : VCombiner) (R : Val → Val → Prop) (hc : LawfulCombiner c R) (fo : Option Nat) :
+      SubBuilt (combineGlobalNode c fo)
+  | combineGlobalLifted (c : VCombiner) (R : Val → Val → Prop) (hc : LawfulCombiner c R) (fo : Option Nat) :
+      SubBuilt (combineGlobalLiftedNode c fo)
+
+/-- nodes of a main chain: the above, or a join of two sub-plans over vector sources -/
+inductive Built : Node Part → Prop
+  | sub {nd : Node Part} (h : SubBuilt nd) : Built nd
+  | join (k : JoinKind) (xs ys : List Val) (l r : List (Node Part))
+      (hl : ∀ nd ∈ l, SubBuilt nd) (hr : ∀ nd ∈ r, SubBuilt nd) :
+      Built (joinNode k (vecSource xs :: l) (vecSource ys :: r))
+
+theorem subBuilt_ok {nd : Node Part} (h : SubBuilt nd) : SubNodeOK List.flatten nd := by
+  cases h with
+  | stateless ops h => exact h
+  | gbk => exact gbkNode_ok
+  | combineValues c R hc => exact combineValuesNode_ok hc
+  | combineValuesLifted c R hc => exact combineValuesLiftedNode_ok hc
+  | combineGlobal c R hc fo => exact combineGlobal_contract hc fo
+  | combineGlobalLifted c R hc fo => exact combineGlobalLifted_contract hc fo
+
+theorem subBuilt_nodeOK {nd : Node Part} (h : SubBuilt nd) : NodeOK List.flatten nd := by
+  have := subBuilt_ok h
+  cases h <;> exact this
+
+theorem subBuilt_liftOK {nd : Node Part} (h : SubBuilt nd) : LiftOK List.flatten nd := by
+  cases h with
+  | combineValuesLifted c R hc => exact combineValuesNode_ok hc
+  | stateless ops h => trivial
+  | gbk => trivial
+  | combineValues c R hc => trivial
+  | combineGlobal c R hc fo => trivial
+  | combineGlobalLifted c R hc fo => trivial
+
+theorem built_nodeOK {nd : Node Part} (h : Built nd) : NodeOK List.flatten nd := by
+  cases h with
+  | sub h => exact subBuilt_nodeOK h
+  | join k xs ys l r hl hr =>
+    refine ⟨⟨fun n => vecSplit_flatten xs n, fun nd hnd => subBuilt_ok (hl nd hnd)⟩,
+            ⟨fun n => vecSplit_flatten ys n, fun nd hnd => subBuilt_ok (hr nd hnd)⟩, rfl, rfl⟩
+
+theorem built_liftOK {nd : Node Part} (h : Built nd) : LiftOK List.flatten nd := by
+  cases h with
+  | sub h => exact subBuilt_liftOK h
+  | join k xs ys l r hl hr => trivial
+
+/-- **C01, as the user sees it.** For every source vector, every chain of builder-made nodes (element-wise
+    blocks, group_by_key, per-key and global combines with ANY lawful combiner and ANY fan-out, joins
+    whose sides have their own transform/group/combine prefixes), and EVERY partition count `n`:
+    `collect_par` (the parallel engine on the PLANNED chain) returns exactly what `collect_seq`
+    returns — the same rows in the same (model) order, or the same error. -/
+theorem C01_pipeline (xs : List Val) (rest : List (Node Part)) (h : ∀ nd ∈ rest, Built nd) (n : Nat) :
+    execPar List.flatten (optimise (vecSource xs :: rest)) n = execSeq (optimise (vecSource xs :: rest)) := by
+  obtain ⟨rest', hshape, hok⟩ := optimise_source_shape List.flatten xs xs.length (vecSplit xs) rest
+    (fun nd hnd => built_nodeOK (h nd hnd)) (fun nd hnd => built_liftOK (h nd hnd))
+  have hs : vecSource xs = Node.source xs xs.length (vecSplit xs) := rfl
+  rw [hs, hshape]
+  exact execPar_eq_execSeq List.flatten (fun p => by simp) xs xs.length (vecSplit xs)
+    (fun k => vecSplit_flatten xs k) rest' hok n
+
+/-- the same for the literal (un-planned) chain -/
+theorem C01_pipeline_literal (xs : List Val) (rest : List (Node Part)) (h : ∀ nd ∈ rest, Built nd) (n : Nat) :
+    execPar List.flatten (vecSource xs :: rest) n = execSeq (vecSource xs :: rest) :=
+  execPar_eq_execSeq List.flatten (fun p => by simp) xs xs.length (vecSplit xs)
+    (fun k => vecSplit_flatten xs k) rest (fun nd hnd => built_nodeOK (h nd hnd)) n
+
+/-- joins: the outer chain restarts at the 1-element dummy source -/
+theorem C01_pipeline_after_join (rest : List (Node Part)) (h : ∀ nd ∈ rest, Built nd) (n : Nat) :
+    execPar List.flatten (optimise (dummySource :: rest)) n = execSeq (optimise (dummySource :: rest)) :=
+  C01_pipeline [.int 0] rest h n
+
+/-! non-vacuity: a concrete chain with an element-wise block, a group_by_key lifted into a combine, a
+    global combine with fan-out 1 and a join meets the hypotheses -/
+example : ∀ nd ∈ ([ .stateless [mapValuesOp (fun v => .int (v.toInt + 1)), filterValuesOp (fun v => v.toInt % 2 == 0)],
+                    gbkNode, combineValuesLiftedNode Comb.sum.toCombiner,
+                    joinNode .left (vecSource [.pair (.int 1) (.int 2)] :: [gbkNode])
+                                   (vecSource [] :: [combineValuesNode Comb.count.toCombiner]),
+                    .stateless [mapOp Val.value],
+                    combineGlobalNode Comb.sum.toCombiner (some 1) ] : List (Node Part)), Built nd := by
+  intro nd hnd
+  simp only [List.mem_cons, List.mem_nil_iff, or_false] at hnd
+  rcases hnd with rfl | rfl | rfl | rfl | rfl | rfl
+  · refine .sub (.stateless _ ?_)
+    intro op hop ps
+    simp only [List.mem_cons, List.mem_nil_iff, or_false] at hop
+    rcases hop with rfl | rfl
+    · show List.map _ ps.flatten = (ps.map (List.map _)).flatten
+      rw [List.map_flatten]
+    · show List.filter _ ps.flatten = (ps.map (List.filter _)).flatten
+      rw [List.filter_flatten]
+  · exact .sub .gbk
+  · exact .sub (.combineValuesLifted _ Eq lawful_sum)
+  · refine .join .left _ _ [gbkNode] [combineValuesNode Comb.count.toCombiner] ?_ ?_
+    · intro nd h; simp only [List.mem_singleton] at h; subst h; exact .gbk
+    · intro nd h; simp only [List.mem_singleton] at h; subst h; exact .combineValues _ Eq lawful_count
+  · refine .sub (.stateless _ ?_)
+    intro op hop ps
+    simp only [List.mem_singleton] at hop
+    subst hop
+    show List.map _ ps.flatten = (ps.map (List.map _)).flatten
+    rw [List.map_flatten]
+  · exact .sub (.combineGlobal _ Eq lawful_sum (some 1))
 
 end IB
